@@ -86,6 +86,8 @@ RET_FORMS = [
     Form("SB<'r>", 1, lambda l: "SB<%s>" % _lt(l[0]), lambda l: [("struct", "a", l[0])]),
     Form("S2<'r,'s>", 2, lambda l: "S2<%s, %s>" % (_lt(l[0]), _lt(l[1])),
          lambda l: [("struct", "a", l[0]), ("struct", "b", l[1])]),
+    Form("S2b<'r,'s>", 2, lambda l: "S2b<%s, %s>" % (_lt(l[0]), _lt(l[1])),
+         lambda l: [("struct", "a", l[0]), ("struct", "b", l[1])], lambda l: [(l[1], l[0])]),
     Form("&'r [u8]", 1, lambda l: "&%s [u8]" % _lt(l[0]), lambda l: [("slice", None, l[0])]),
     Form("&'r str", 1, lambda l: "&%s str" % _lt(l[0]), lambda l: [("slice", None, l[0])]),
     Form("OutB<'r,'s>", 2, lambda l: "OutB<%s, %s>" % (_lt(l[0]), _lt(l[1])),
